@@ -21,7 +21,7 @@ from formulaic.utils.sentinels import MISSING, MissingType
 from .errors import FormulaInvalidError
 from .model_matrix import ModelMatrix
 from .parser import DefaultFormulaParser
-from .parser.types import FormulaParser, OrderedSet, Term
+from .parser.types import Factor, FormulaParser, OrderedSet, Term
 from .utils.calculus import differentiate_term
 from .utils.deprecations import deprecated
 from .utils.structured import Structured
@@ -534,13 +534,19 @@ class SimpleFormula(
         evaluation context rather than the data context.
         """
 
-        variables: list[Variable] = [
-            variable
-            for term in self.__terms
-            for factor in term.factors
-            for variable in get_expression_variables(factor.expr, {})
-            if "value" in variable.roles
-        ]
+        variables: list[Variable] = []
+        for term in self.__terms:
+            for factor in term.factors:
+                if factor.eval_method is Factor.EvalMethod.LOOKUP:
+                    # Lookup factors name their variable directly, and the name
+                    # need not be a valid Python expression (e.g. `my col`).
+                    variables.append(Variable(factor.expr, roles=["value"]))
+                else:
+                    variables.extend(
+                        variable
+                        for variable in get_expression_variables(factor.expr, {})
+                        if "value" in variable.roles
+                    )
 
         # Filter out constants like `contr` that are already present in the
         # TRANSFORMS namespace.
